@@ -51,6 +51,13 @@ ASSUMPTIONS = ['arrays are float64 or int64 (int64 with int fills through Funcs.
                'index_sem reads a subscript item with int()\'s grammar; Python\'s literal grammar differs on leading zeros (007), repeated signs (--1) '
                'and non-ASCII whitespace: the sem cases validate canonical spellings only, which is what the rewriter writes',
                'the tie to label indexing imports the model of property C10 (Locate/Locate.v, Locate/LocateFacts.v)',
+               'CPython\'s scoping is outside the model (pyeval is abstract; name_lookup_outer is a flat lookup): that eval() hands the names over '
+               'as LOCALS, invisible in nested scopes of the expression, is carried by the oracle alone (finding names-invisible-in-nested-scopes; '
+               'the model-level witness uses a lookup that ignores the assembled namespace)',
+               'labels are str or int in the model; spans with float / tuple / date-object labels are judged by the oracle only '
+               '(finding label-not-str-or-int)',
+               'recognition of the integer/bool/text fill finding and of the np-leak relies on NumPy\'s exception classes (ValueError / OverflowError), '
+               'its cast rules and the repr `np.int64(` : stable for the pinned NumPy 2.x only',
                'expressions or labels with characters outside Latin-1 are outside the Coq model (strings are lists of 8-bit characters): '
                'for them only the direct oracle speaks (K is skipped)',
                'K compares the rewritten TEXT up to an empty trailing step ([a:b:] = [a:b]), result-object identity for p = 0 / d = 0 and exception '
@@ -65,6 +72,8 @@ HELPER_NAMES = ['diff', 'dlog', 'exp', 'lag', 'lead', 'log']
 LEAK_NAMES = ['np', 'copy', 're', 'warnings', 'difflib', '_builtins', 'VectorContainer', 'abs', 'len', 'print']   # globals of fsic/core/containers.py, Python builtins
 SIG_NEST = 'C16|eval→_resolve_expression_indexes|label-not-alone-in-its-bracket'
 SIG_NEGSTEP = 'C16|eval→_resolve_expression_indexes|label-slice-negative-step'
+SIG_SCOPE = 'C16|eval|names-invisible-in-nested-scopes'
+SIG_LABTYPE = 'C16|eval→_resolve_expression_indexes|label-not-str-or-int'
 SIG26 = 'C16|diff(x,0)|returns-x-not-zeros'
 SIG_LEAK = 'C16|eval(globals=None)|module-global-visible'
 SIG_LBL = 'C16|eval→_resolve_expression_indexes|label-with-colon-bracket-or-backtick'
@@ -93,7 +102,7 @@ def _exc(e):
     return ['raise', type(e).__name__]
 
 
-OTHER_DTYPES = ('f4', 'b', 'O')      # float32 / bool / object arrays: judged by the oracle only (outside the Coq instances)
+OTHER_DTYPES = ('f4', 'b', 'O', 'U')      # float32 / bool / object arrays: judged by the oracle only (outside the Coq instances)
 
 
 def _mk_array(case):
@@ -106,6 +115,8 @@ def _mk_array(case):
         a = np.array([bool(v) for v in case['x']], dtype=bool)
     elif case['dtype'] == 'O':
         a = np.array([lib.unhex(v) for v in case['x']], dtype=object)
+    elif case['dtype'] == 'U':
+        a = np.array([str(v) for v in case['x']]) if case['x'] else np.array([], dtype='<U1')
     else:
         a = np.array(case['x'], dtype=np.int64)
     if case['rank'] == 0:
@@ -116,6 +127,8 @@ def _mk_array(case):
 
 
 def _fill(case):
+    if isinstance(case['fill'], dict) and 's' in case['fill']:
+        return case['fill']['s']                           # a str fill value (text arrays)
     if case['dtype'] == 'f' or case['dtype'] in OTHER_DTYPES:
         return lib.unhex(case['fill'])
     if isinstance(case['fill'], dict):                 # an int64 array with a float fill value
@@ -130,6 +143,8 @@ def _vals(a, dtype):
         return [lib.fhex(x) for x in flat]
     if flat.dtype.kind == 'O':
         return [lib.fhex(x) if isinstance(x, float) else int(x) for x in flat]
+    if flat.dtype.kind in 'US':
+        return [str(x) for x in flat]
     return [int(x) for x in flat]
 
 
@@ -524,6 +539,11 @@ def render(ast, rng=None, mode='expr', span=None):
         if ast[4] is not None:
             args.append('fill_value=%r' % lib.unhex(ast[4]))
         return ast[1] + '(' + ', '.join(args) + ')'
+    if k == 'nest':                        # ('nest', form, name): a DEFINED name used inside a nested scope of the expression
+        form, nm = ast[1], ast[2]
+        return {'lam0': '(lambda: %s[0])()', 'gen': 'sum(%s[i] for i in range(1))', 'lamh': '(lambda v: lag(v, 0))(%s)',
+                'genk': 'sum(%s for _ in range(2))', 'lamok': '(lambda v: v[0])(%s)', 'genok': 'sum(v for v in %s)',
+                'setc': 'sum({%s[0] for _ in range(1)})'}[form] % nm
     if k == 'raw':                         # ('raw', text) : e.g. a list literal subscripted, copied in every mode
         return ast[1]
     if k == 'sub':                         # ('sub', base_ast, bracket)
@@ -585,6 +605,15 @@ def render_bracket(br, mode, span):
                 parts.append(pad(s, 2))
             return '[' + ':'.join(parts) + ']'
         a = b = ''
+        if s is not None and int(s) < 0 and mode == 'refneg':
+            # what the code does today (finding label-slice-negative-step): start of the first location, stop + 1, whatever the step
+            if la is not None:
+                p = _pos_of(span, la)
+                a = str(p[0] if isinstance(p, tuple) else p)
+            if lb is not None:
+                p = _pos_of(span, lb)
+                b = str(p[1] if isinstance(p, tuple) else p + 1)
+            return '[' + a + ':' + b + ':' + s + ']'
         if s is not None and int(s) < 0:
             # a descending label slice, inclusive at both ends (what pandas' .loc[la:lb:-1] selects)
             if la is not None:
@@ -678,6 +707,20 @@ def names_of(ast):
         return names_of(ast[1])
     if ast[0] == 'call':
         return names_of(ast[2])
+    if ast[0] == 'nest':
+        return [ast[2]]
+    return []
+
+
+def nests_of(ast):
+    if ast[0] == 'nest':
+        return [ast]
+    if ast[0] == 'bin':
+        return nests_of(ast[2]) + nests_of(ast[3])
+    if ast[0] in ('neg', 'sub'):
+        return nests_of(ast[1])
+    if ast[0] == 'call':
+        return nests_of(ast[2])
     return []
 
 
@@ -691,7 +734,10 @@ UNICODE_LABELS = ['\u03b1', '\u03b2\u03b3', '\u5e74', '2000\u5e74', 'caf\u00e9',
 
 def _outside_model(case):
     txt = case.get('expr') if case['kind'] == 'expr' else case.get('s', '')
-    labs = [x for x in case.get('span', {}).get('labels', []) if isinstance(x, str)]
+    all_labs = case.get('span', {}).get('labels', [])
+    if any(not isinstance(x, (str, int)) for x in all_labs):
+        return True                                       # the model's labels are str / int
+    labs = [x for x in all_labs if isinstance(x, str)]
     return any(ord(ch) > 255 for t in [txt or ''] + labs for ch in t)
 
 
@@ -716,7 +762,7 @@ def labels_of(ast):
 
 
 SPAN_KINDS = ['range', 'strlist', 'intlist', 'mixlist', 'np_int', 'np_str', 'pd_int', 'pd_str', 'period_Y', 'period_Q',
-              'duplist', 'dupnp', 'datetime_D']
+              'duplist', 'dupnp', 'datetime_D', 'floatlist']
 
 
 def make_span(rng, kind=None):
@@ -739,6 +785,8 @@ def make_span(rng, kind=None):
     if kind == 'mixlist':
         pool = [2000, 2001, 'a', 'b', 7, 'c7']
         return {'kind': kind, 'type': 'list', 'labels': rng.sample(pool, n)}
+    if kind == 'floatlist':                            # labels that are neither str nor int (finding SIG_LABTYPE); outside the model
+        return {'kind': kind, 'type': 'list', 'labels': [1.5 + i for i in range(n)]}
     if kind in ('duplist', 'dupnp'):
         # repeated labels: list.index finds the first; the NumPy fallback refuses a repeated label (KeyError) — on both paths
         base = rng.choice([['a', 'b', 'a', 'c', 'b', 'd'], [2000, 2001, 2000, 2002, 2003, 2001]])
@@ -959,6 +1007,12 @@ def gen_helpers(rng, tier):
                 for fl in (float('nan'), -1.0, 0.0):
                     for f in (('lag', 'lead') if dt == 'b' else ('lag', 'lead', 'diff')):
                         cases.append({'kind': 'helper', 'f': f, 'dtype': dt, 'rank': 1, 'x': xs, 'p': p, 'fill': lib.fhex(fl)})
+    # text arrays (oracle only): the default NaN fill, a short and a long str fill
+    for xs in ([], ['a'], ['a', 'b'], ['ab', 'cd', 'ef']):
+        for p in range(-len(xs) - 1, len(xs) + 2):
+            for fl in (lib.fhex(float('nan')), {'s': '-'}, {'s': 'missing'}):
+                for f in ('lag', 'lead'):
+                    cases.append({'kind': 'helper', 'f': f, 'dtype': 'U', 'rank': 1, 'x': xs, 'p': p, 'fill': fl})
     # int64 arrays with float fill values: the default NaN, infinities, fractional and integral floats (cast by NumPy)
     for n in range(0, 4 if tier == 'quick' else 7):
         xi = [rng.randint(-9, 9) for _ in range(n)]
@@ -1144,6 +1198,28 @@ def gen_hist(rng, tier):
     return cases
 
 
+def gen_nested(rng, tier):
+    """DEFINED names — variables, helpers, caller locals — inside lambdas / generator expressions / comprehensions"""
+    cases = []
+    for _ in range(150 if tier == 'quick' else 3000):
+        span = make_span(rng, rng.choice(['range', 'strlist', 'intlist', 'np_str', 'pd_int']))
+        n = len(span['labels'])
+        names = rng.sample(['X', 'Y', 'Z'], 2)
+        vars_ = [[nm, [lib.fhex(rng.choice([1.0, 2.0, 0.5, 3.0]) + float(j)) for j in range(n)]] for nm in names]
+        form = rng.choice(['lam0', 'gen', 'lamh', 'genk', 'lamok', 'genok', 'setc'])
+        node = ('nest', form, 'k_loc' if form == 'genk' else rng.choice(names))
+        if rng.random() < 0.5:
+            other = gen_ast(rng, span, names, 1, rng.choice(['pos', 'lab']), {})
+            ast = ('bin', rng.choice(['+', '*']), node, other) if rng.random() < 0.5 else ('bin', '+', other, node)
+        else:
+            ast = node
+        case = {'kind': 'expr', 'span': span, 'vars': vars_, 'ast': ast, 'expr': render(ast, None, 'expr', span), 'style': 'nested'}
+        if form == 'genk':
+            case['locals'] = [['k_loc', 'num', lib.fhex(3.0)]]
+        cases.append(case)
+    return cases
+
+
 def gen_int(rng, tier):
     out = []
     for c in range(256):
@@ -1189,6 +1265,7 @@ def gen(rng, tier):
     cases += gen_sem(rng, tier)
     cases += gen_int(rng, tier)
     cases += gen_hist(rng, tier)
+    cases += gen_nested(rng, tier)
     cases += gen_text(rng, tier)
     n_expr = 2000 if tier == 'quick' else 150000
     for i in range(n_expr):
@@ -1264,7 +1341,9 @@ def _ref_eval(case, mode, zero_identity=False, series=None):
     try:
         with warnings.catch_warnings():
             warnings.simplefilter('ignore')
-            return _canon(eval(text, {'__builtins__': {'True': True, 'slice': slice}}, _ref_ns(case, zero_identity, series)))
+            g = dict(_ref_ns(case, zero_identity, series))
+            g['__builtins__'] = {'True': True, 'slice': slice, 'sum': sum, 'range': range}
+            return _canon(eval(text, g))                 # one namespace: nested scopes of the expression see every bound name
     except _OutOfScope:
         return ['oos']
     except NameError as e:
@@ -1305,11 +1384,24 @@ def oracle_expr(case, obs, fails):
         bad(SIG_INTFILL, 'a helper applied to the integer series `iterations` of a model: the float fill value is cast to int64 even when nothing '
             'is stored (empty selection): eval(%r) = %s, expected %s' % (case['expr'], str(got)[:80], str(ref)[:80]))
         return
-    if any(b[0] == 'ls' and b[3] is not None and int(b[3]) < 0 and (b[1] is not None or b[2] is not None) for b in brackets_of(case['ast'])):
-        bad(SIG_NEGSTEP, 'a label slice with a negative step is not the inclusive descending slice (the stop label and the period after it are missing; a slice-valued start location starts at its FIRST period): '
-            'eval(%r) = %s, the inclusive descending slice gives %s' % (case['expr'], str(got)[:120], str(ref)[:120]))
+    brs = brackets_of(case['ast'])
+    nests = [x for x in nests_of(case['ast']) if x[1] in ('lam0', 'gen', 'lamh', 'genk', 'setc')]
+    if nests and got[:2] == ['raise', 'AttributeError'] and got[3] and got[2] in [x[2] for x in nests] + ['lag']:
+        bad(SIG_SCOPE, 'a DEFINED name is reported undefined when it is used inside a nested scope of the expression (lambda / generator '
+            'expression): eval(%r) = %s, expected %s' % (case['expr'], str(got)[:100], str(ref)[:100]))
         return
-    if any(b[0] in NOT_ALONE for b in brackets_of(case['ast'])):
+    if case['span'].get('kind') in ('floatlist', 'tuplelist') and labels_of(case['ast']) and got[:2] == ['raise', 'KeyError']:
+        bad(SIG_LABTYPE, 'a label that is neither a str nor an int cannot be addressed by a backtick: eval(%r) raises KeyError, label indexing gives %s'
+            % (case['expr'], str(ref)[:100]))
+        return
+    if any(b[0] == 'ls' and b[3] is not None and int(b[3]) < 0 and (b[1] is not None or b[2] is not None) for b in brs):
+        rneg = _ref_eval(case, 'refneg', _d0(case), ser)       # the finding's exact prediction: [start : stop+1 : s]
+        if got == rneg or rneg == ['oos']:
+            bad(SIG_NEGSTEP, 'a label slice with a negative step is not the inclusive descending slice (the stop label and the period after it are missing; '
+                'a slice-valued start location starts at its FIRST period): eval(%r) = %s, the inclusive descending slice gives %s'
+                % (case['expr'], str(got)[:120], str(ref)[:120]))
+            return
+    if any(b[0] in NOT_ALONE for b in brs) and got[:2] in (['raise', 'KeyError'], ['raise', 'SyntaxError']):
         bad(SIG_NEST, 'a backticked label that does not stand alone in its bracket (nested subscript, parentheses, slice broken across lines) is not '
             'resolved: eval(%r) = %s, the intended meaning gives %s' % (case['expr'], str(got)[:120], str(ref)[:120]))
         return
@@ -1319,6 +1411,34 @@ def oracle_expr(case, obs, fails):
     bad('C16|eval|value-differs-from-direct-evaluation', 'eval(%r) = %s but direct NumPy evaluation of the intended meaning gives %s' % (case['expr'], str(got)[:200], str(ref)[:200]))
 
 
+def oracle_helper_text(case, obs, fails):
+    """text arrays: lag(x,p)[i] = x[i-p] inside the array, fill_value outside"""
+    def bad(sig, what):
+        fails.append({'sig': sig, 'what': what})
+    f, p = case['f'], case['p']
+    fill = case['fill']['s'] if isinstance(case['fill'], dict) else lib.unhex(case['fill'])
+    x = [str(v) for v in case['x']]
+    n = len(x)
+    if obs['x_after'] != x:
+        bad('C16|%s|input-modified' % f, '%s(x, %d) modified its text argument' % (f, p))
+    out = obs['out']
+    if out[0] != 'ret':
+        bad('C16|%s|raised' % f, '%s(text array, %d, fill_value=%r) raised %s' % (f, p, fill, out[1]))
+        return
+    got = out[1]
+    if len(got) != n:
+        bad('C16|%s|length' % f, '%s(x, %d): result length %d for an input of length %d' % (f, p, len(got), n))
+        return
+    q = -p if f == 'lead' else p
+    want = [x[i - q] if 0 <= i - q < n else fill for i in range(n)]
+    wrong = [i for i in range(n) if got[i] != want[i]]
+    if wrong and all(not (0 <= i - q < n) for i in wrong):
+        bad(SIG_INTFILL, '%s(text array %s, %d, fill_value=%r) stores the fill value cast to the array dtype (str(fill) cut to the item width): %s'
+            % (f, x, p, fill, got))
+    elif wrong:
+        bad('C16|%s|values' % f, '%s(text array, %d, fill_value=%r): got %s want %s' % (f, p, fill, got, want))
+
+
 def oracle_helper_other(case, obs, fails):
     """float32 / bool / object arrays: lag(x,p)[i] = x[i-p] inside, fill_value outside; diff(x,d)[i] = x[i]-x[i-d]; compared as values"""
     import numpy as np
@@ -1326,6 +1446,8 @@ def oracle_helper_other(case, obs, fails):
     def bad(sig, what):
         fails.append({'sig': sig, 'what': what})
     f, p, dt = case['f'], case['p'], case['dtype']
+    if dt == 'U':
+        return oracle_helper_text(case, obs, fails)
     fill = lib.unhex(case['fill'])
     x = [bool(v) for v in case['x']] if dt == 'b' else [lib.unhex(v) for v in case['x']]
     n = len(x)
